@@ -124,7 +124,7 @@ def r3_transport_body(chk: Check) -> None:
         chk.violation("C20.R3", pb, "GraphQL body -> {'query': body}", "GraphQL documents are sent bare: the server cannot find the query", pb.loc())
     else:
         v = wraps[0].values[0]
-        chk.decide(unparse(v) == "case.body", "C20.R3", pb, "GraphQL body -> {'query': body}", f"`query` carries `{unparse(v)}`", pb.loc(wraps[0]))
+        chk.decide(ceq(pb, v, 'case.body'), "C20.R3", pb, "GraphQL body -> {'query': body}", f"`query` carries `{unparse(v)}`", pb.loc(wraps[0]))
         guard = next((a for a in ancestors(wraps[0]) if isinstance(a, ast.If)), None)
         chk.decide(guard is not None and "isinstance(case.operation.schema, GraphQLSchema)" in unparse(guard.test), "C20.R3", pb, "wrapping only for GraphQL schemas", "wrapping condition not recognised", pb.loc())
     for ref in ("transport/requests.py:RequestsTransport.serialize_case", "transport/wsgi.py:WSGITransport.serialize_case"):
